@@ -25,7 +25,9 @@ EXTENDS Naturals, Sequences, FiniteSets
 
 CONSTANTS Sizes,      \* the numbers of input streams explored (exhaustive model only)
           Data,       \* payload alphabet (exhaustive model only)
-          TagFrom     \* with N >= TagFrom inputs, input i only ever offers payload i (keeps those models small)
+          TagFrom,    \* with N >= TagFrom inputs, input i only ever offers payload i (keeps those models small)
+          KeepLogs    \* FALSE: the ghost logs acc / dlv are not accumulated (long recorded traces; their
+                      \* per-cycle counterpart ExactlyOncePerCycle is what is evaluated there)
 
 VARIABLES N,          \* configuration: number of input streams (fixed by Init)
           sel,        \* Ref: input selected for the coming cycle
@@ -81,8 +83,8 @@ Step(i) ==
      /\ out' = o
      /\ cur' = sel
      /\ sel' = NextSel(sel, i)
-     /\ acc' = [k \in Idx |-> IF k \in a THEN Append(acc[k], i.data[k]) ELSE acc[k]]
-     /\ dlv' = IF o.valid /\ i.ready THEN Append(dlv, <<sel, o.data>>) ELSE dlv
+     /\ acc' = IF KeepLogs THEN [k \in Idx |-> IF k \in a THEN Append(acc[k], i.data[k]) ELSE acc[k]] ELSE acc
+     /\ dlv' = IF KeepLogs /\ o.valid /\ i.ready THEN Append(dlv, <<sel, o.data>>) ELSE dlv
      /\ served' = {k \in Idx : i.valid[k] /\ (k \in a \/ k \in served)}
 
 (* The cycles are named by what happens in them (so that coverage shows each kind is reached). *)
